@@ -293,6 +293,10 @@ class Check:
                                                 time.monotonic() + 90))
                         if rep2 is not None:
                             rep2['unminimised_ops'] = len(rep.get('ops', []))
+                            rep2['unminimised'] = {
+                                'ops': rep.get('ops'),
+                                'project': rep.get('project'),
+                                'violation': v}
                             rep, v = rep2, v2
                     except Exception:
                         self.out('note: minimisation failed: ' +
